@@ -524,6 +524,10 @@ impl Debug for InflightRequests {
 
 #[cfg(mainline_verif)]
 impl KrpcSocket {
+    pub fn verif_set_next_tid(&mut self, tid: u32) {
+        self.inflight_requests.next_tid = tid;
+    }
+
     pub fn verif_snapshot(&self) -> crate::verif::SocketSnapshot {
         let timeout = self.inflight_requests.request_timeout();
 
